@@ -976,4 +976,117 @@ theorem decorator_cache_exceeds_bound :
     (ops.foldl (fun s op => (dstep e s op).1) DSt.init).cache.length = 7 := by
   decide
 
+/-! ## Setters: what the instances are built from (driver ops `pnew` / `pset` / `preq`)
+
+The version counter of the cache model stands for "the current parameter values".  `pstep` keeps the values themselves
+(object identity, content, kind) next to it.  Two classes of setter histories get their own statements: the setter is
+handed the object the element already holds (edited in place by the caller), and the setter changes the *kind* of the
+value (constant <-> function of grid / wavelength / both). -/
+
+theorem builtFrom_current {vals : List PVal} {ver : Nat} (h : vals.length = ver + 1) :
+    builtFrom vals ver = vals.headD default := by
+  cases vals with
+  | nil => simp at h
+  | cons a t =>
+    have h0 : t.length - ver = 0 := by simp at h; omega
+    simp [builtFrom, h0]
+
+/-- The invariants of an element with a parameter -- the cache invariants, and one recorded value per parameter
+version -- hold at construction and after every step. -/
+theorem pstep_inv {e : Elem} (hT : Truthful e) (hmax : 1 ≤ e.maxN) {p : PSt} (hi : Inv e p.st)
+    (hl : p.vals.length = p.st.ver + 1) (op : POp) :
+    Inv e (pstep e p op).1.st ∧ (pstep e p op).1.vals.length = (pstep e p op).1.st.ver + 1 := by
+  obtain ⟨hi', hver⟩ := step_req_inv hT hmax hi op.toOp
+  cases op with
+  | req i o w => exact ⟨hi', by simpa [pstep, POp.toOp] using hl.trans (by simp [POp.toOp] at hver; omega)⟩
+  | clear => exact ⟨hi', by simpa [pstep, POp.toOp] using hl.trans (by simp [POp.toOp] at hver; omega)⟩
+  | set v =>
+    refine ⟨hi', ?_⟩
+    simp only [POp.toOp] at hver
+    simp only [pstep, POp.toOp, List.length_cons, hl]
+    omega
+
+example : ∃ (e : Elem) (p : PSt), Inv e p.st ∧ p.vals.length = p.st.ver + 1 :=
+  ⟨⟨true, true, 11, fun _ _ g => some g, fun _ _ g => some g⟩, PSt.init ⟨0, 0, 0⟩, inv_init _ 0, rfl⟩
+
+/-- **Setters are transparent in the values**: after any history of requests, `clear_cache()` calls and setters --
+whatever objects the setters were handed (the same object again, edited in place, included) and however the kind of
+the value changed --, every request is answered by an instance built from the value the element holds *now*, exactly
+as a freshly constructed element given that value would. -/
+theorem transparent_values {e : Elem} (hT : Truthful e) (hmax : 1 ≤ e.maxN) (ops : List POp) :
+    ∀ p : PSt, Inv e p.st → p.vals.length = p.st.ver + 1 → prun e p ops = pspec e p.stored p.st.ver ops := by
+  induction ops with
+  | nil => intro p _ _; rfl
+  | cons op ops ih =>
+    intro p hi hl
+    obtain ⟨hi2, hl2⟩ := pstep_inv hT hmax hi hl op
+    have ih' := ih _ hi2 hl2
+    obtain ⟨_, hver⟩ := step_req_inv hT hmax hi op.toOp
+    cases op with
+    | set v =>
+      simp only [prun, pspec]
+      rw [ih']
+      simp [pstep, POp.toOp, step, PResp.ofResp, PSt.stored, St.setParam]
+    | clear =>
+      simp only [prun, pspec]
+      rw [ih']
+      simp [pstep, POp.toOp, step, PResp.ofResp, PSt.stored, St.clear]
+    | req i o w =>
+      simp only [prun, pspec]
+      rw [ih']
+      have h1 : (step e p.st (.req i o w)).2 = (step e (St.init p.st.ver) (.req i o w)).2 := by
+        have := transparent_from hT hmax [.req i o w] p.st hi
+        simpa [run, specRun] using this
+      have hv : (step e p.st (.req i o w)).1.ver = p.st.ver := by simpa [POp.toOp] using hver
+      have h2 : (pstep e p (.req i o w)).2 =
+          PResp.ofResp (fun _ => p.stored) (step e (St.init p.st.ver) (.req i o w)).2 := by
+        simp only [pstep, POp.toOp]
+        rw [h1]
+        rcases fresh_spec hT hmax p.st.ver i o w with ⟨_, herr⟩ | ⟨k, k2, _, _, hf⟩
+        · rw [herr]; rfl
+        · rw [hf]; simp only [PResp.ofResp]; rw [builtFrom_current hl]; rfl
+      rw [h2]
+      simp [pstep, POp.toOp, PSt.stored, hv]
+
+/-- **Setter that changes the kind of the value** (or anything else about it): the next complete request is answered by an
+instance built from the new value with its new kind, whatever kind the element was constructed with. -/
+theorem setter_kind_change_takes_effect {e : Elem} (hT : Truthful e) (hmax : 1 ≤ e.maxN) {p : PSt} (hi : Inv e p.st)
+    (hl : p.vals.length = p.st.ver + 1) (v : PVal) (i o : Option GridId) (w : Option WlKey) {k : Key}
+    (hk : reqKey e i o w = some k) :
+    ∃ k2, (pstep e (pstep e p (.set v)).1 (.req i o w)).2 = .built k2 v := by
+  have h := transparent_values hT hmax [.set v, .req i o w] p hi hl
+  rcases fresh_spec hT hmax (p.st.ver + 1) i o w with ⟨hnone, _⟩ | ⟨_, k2, _, _, hf⟩
+  · rw [hnone] at hk; cases hk
+  · refine ⟨k2, ?_⟩
+    simp only [prun, pspec] at h
+    rw [hf] at h
+    simpa [PResp.ofResp] using (List.cons.inj (List.cons.inj h).2).1
+
+/-- **Setter handed the object the element already holds** (the caller edited it in place): the next complete request is
+answered by an instance built from the object's *new* content. -/
+theorem setter_same_object_takes_effect {e : Elem} (hT : Truthful e) (hmax : 1 ≤ e.maxN) {p : PSt} (hi : Inv e p.st)
+    (hl : p.vals.length = p.st.ver + 1) (c : Nat) (i o : Option GridId) (w : Option WlKey) {k : Key}
+    (hk : reqKey e i o w = some k) :
+    ∃ k2, (pstep e (pstep e p (.set { p.stored with content := c })).1 (.req i o w)).2
+      = .built k2 { p.stored with content := c } :=
+  setter_kind_change_takes_effect hT hmax hi hl _ i o w hk
+
+/-- The mutant "the setter returns early when it is handed the object it already holds" (seeded regression C08-11) serves
+the instance built from the old content. -/
+theorem setter_skip_same_object_counterexample :
+    let e : Elem := ⟨true, true, 11, fun _ _ g => some g, fun _ _ g => some g⟩
+    let p1 := (pstep e (PSt.init ⟨7, 1, 0⟩) (.req (some 1) none (some 5))).1
+    let p2 := Mutant.psetSkipSameObject p1 ⟨7, 2, 0⟩
+    (step e p2.st (.req (some 1) none (some 5))).2 = .inst ⟨some 1, some 1, some 5⟩ 0 ∧
+    builtFrom p1.vals 0 = ⟨7, 1, 0⟩ ∧ p2.stored = ⟨7, 2, 0⟩ ∧
+    (pstep e (PSt.set' p1 ⟨7, 2, 0⟩) (.req (some 1) none (some 5))).2 = .built ⟨some 1, some 1, some 5⟩ ⟨7, 2, 0⟩ := by
+  decide
+
+/-- The mutant "the kind of the value is decided once, at construction" (seeded regression C09-10): after a setter that
+replaces a constant by a function of the wavelength the instance is built treating the function as a constant. -/
+theorem kind_at_construction_counterexample :
+    let vals : List PVal := [⟨2, 9, 2⟩, ⟨1, 3, 0⟩]
+    Mutant.builtFromKindAtInit vals 1 = ⟨2, 9, 0⟩ ∧ builtFrom vals 1 = ⟨2, 9, 2⟩ := by
+  decide
+
 end HcipyVerif.C05
